@@ -68,6 +68,10 @@ POSITIONS = [
     # a schema-qualified table whose schema part is spelled like ANOTHER integration (int1 holds a schema called int2)
     ('schema_named_like_other_integration', 'SELECT * FROM int1.int2.t1 AS u JOIN int1.t3 ON u.id = t3.id', ['t1', 't3']),
     ('schema_named_like_other_integration_model', 'SELECT * FROM int1.int2.t1 AS u JOIN mindsdb.pred', ['t1']),
+    # a CTE over another integration that is only used from a sub-query / a join operand of the main query
+    ('cte_foreign_used_in_subquery', 'WITH c AS (SELECT * FROM {A}.t2) SELECT * FROM int1.t1 WHERE id IN (SELECT id FROM c)', ['t2', 't1']),
+    ('cte_foreign_used_in_target', 'WITH c AS (SELECT * FROM {A}.t2) SELECT id, (SELECT max(b) FROM c) AS m FROM int1.t1', ['t2', 't1']),
+    ('cte_two_integrations', 'WITH c AS (SELECT * FROM {A}.t2), d AS (SELECT * FROM int1.t3) SELECT * FROM c JOIN d ON c.id = d.id', ['t2', 't3']),
     ('subquery_same_integration_as_probe', 'SELECT * FROM {A}.t2 WHERE id IN (SELECT t1.id FROM int1.t1 JOIN {A}.t2 AS u ON t1.id = u.id)', ['t2', 't1', 't2']),
 ]
 
